@@ -143,7 +143,7 @@ def cells_of_row(row):
 class C02(core.Check):
     pid = "C02"
     gen_modules = []
-    model_targets = ["theories/Model/Canvas.vo"]
+    model_targets = ["theories/Model/Canvas.vo", "theories/Model/CanvasHeap.vo"]
     prop_file = "theories/Properties/C02.v"
     extract_v = "Extract/C02X.v"
     allowed_axioms = set()
@@ -166,7 +166,7 @@ class C02(core.Check):
             "operation evaluated; distinct by hash of (case, outcome)")
     trusted_base = [
         "Coq 8.16.1 kernel (coqc; vm_compute used only for closed examples)",
-        "hand-written model coq/theories/Model/Canvas.v of urwid/canvas.py (validated by the correspondence incl. internal shards, not proved against Python)",
+        "hand-written model coq/theories/Model/Canvas.v of urwid/canvas.py and its object-identity layer Model/CanvasHeap.v (validated by the correspondence incl. internal shards and aliasing pattern, not proved against Python)",
         "cell abstraction of TextCanvas rows (harness builds the bytes/run lists from cells; runs aligned to cells; util.trim_text_attr_cs modelled at cell level)",
         "extraction: ExtrOcamlBasic only; Z/positive stay Coq datatypes; OCaml 4.13.1",
         "tools/driver/driver.ml (int <-> Z conversion, line I/O)",
@@ -180,6 +180,7 @@ class C02(core.Check):
         "attribute keys are hashable constants (modelled as integers); attribute maps are compared as dicts",
         "object identity of leaf canvases (cv[5] is other_cv[5]) is an integer id; equal ids denote the same canvas (premise ids_ok of the delta theorem)",
         "shortcuts and children lists, widget_info contents and the CanvasCache are not modelled",
+        "canvas objects themselves are handles: a mutating method is never applied directly to a bound canvas (the generator wraps first), only list objects are heap objects",
     ]
 
     # ================================================================= implementation
@@ -211,6 +212,19 @@ class C02(core.Check):
             cs.append(cl)
         cur = tuple(spec["cursor"]) if spec.get("cursor") is not None else None
         return C.TextCanvas(text, attr, cs, cursor=cur, maxcol=spec.get("maxcol"))
+
+    @staticmethod
+    def alias_pattern(raw):
+        """identities of the list objects of the bound canvases, renumbered by first occurrence:
+        which .shards lists and which cviews lists are the same object"""
+        om, im, out = {}, {}, []
+        for e in raw:
+            if e is None:
+                out.append(None)
+                continue
+            o = om.setdefault(e[0], len(om))
+            out.append([o, [im.setdefault(i, len(im)) for i in e[1]]])
+        return out
 
     @staticmethod
     def _shards(c):
@@ -257,7 +271,7 @@ class C02(core.Check):
         import urwid
         from urwid import canvas as C
         urwid.set_encoding("utf-8")
-        res = {"obs": [], "deltas": [], "error": None, "changed": []}
+        res = {"obs": [], "deltas": [], "error": None, "changed": [], "alias": []}
         leaves = []
         try:
             for n, spec in enumerate(case["leaves"]):
@@ -311,6 +325,8 @@ class C02(core.Check):
             except Exception as e:
                 res["error"] = errcode(e)
                 break
+        res["alias"] = self.alias_pattern([[id(v.shards), [id(cvs) for _, cvs in v.shards]] if hasattr(v, "shards") else None
+                                           for v in env])
         # operands unchanged: everything bound earlier (and every leaf) still reads the same
         for n, (v, s) in enumerate(zip(env, snaps)):
             if self.observe(v) != s:
@@ -433,7 +449,7 @@ class C02(core.Check):
             t, v = nx(), nx()
             return [t, v]
 
-        res = {"obs": [], "deltas": [], "error": None, "changed": []}
+        res = {"obs": [], "deltas": [], "error": None, "changed": [], "alias": []}
         wf = []
         try:
             while True:
@@ -482,6 +498,15 @@ class C02(core.Check):
                         res["deltas"].append(rows)
                     else:
                         res["deltas"].append({"err": nx()})
+                elif tag == 4:
+                    raw = []
+                    for _ in range(nx()):
+                        if nx() == 0:
+                            raw.append(None)
+                        else:
+                            o = nx()
+                            raw.append([o, [nx() for _ in range(nx())]])
+                    res["alias"] = self.alias_pattern(raw)
                 else:
                     return {"malformed": ints[:60]}
         except StopIteration:
@@ -1269,12 +1294,20 @@ C02.level_text = (
     "proved as well (delta_applied_to_old_rows_gives_new_rows): for any two well-formed canvases of equal size, "
     "content_delta (shards_delta, shard_cviews_delta, the shard machinery over cviews flagged unchanged, merged skips, the "
     "repeated-[int]-row shortcut) does not raise and, applied to the old rows, reproduces the new rows exactly; premise: "
-    "integer canvas ids model object identity (equal id => same leaf canvas).  Nothing is left _partial.  'Operands are left "
-    "unchanged' is a theorem about the pure model only in the sense that bound canvases stay related to the same grid value; "
-    "against Python object aliasing it is checked by the oracle (every bound canvas and leaf re-read at the end of each case).  "
+    "integer canvas ids model object identity (equal id => same leaf canvas).  Nothing is left _partial.  'The operand canvases "
+    "are left unchanged' is proved on a heap layer (Model/CanvasHeap.v) that makes Python's aliasing explicit: a composite "
+    "canvas holds a reference to its shards list and every shard a reference to its cviews list; CompositeCanvas(c) shares "
+    "the list, Combine / trim(top) / pad_trim_* / overlay share the shard tuples they keep, pad_trim_top_bottom appends in "
+    "place unless the list is still the operand's (the .copy()).  Theorems: no operation writes to a list object that "
+    "existed before it (no_operation_writes_to_an_existing_list_object; the only in-place write hits a list created by the "
+    "same call); operands_unchanged: for every program, every bound canvas denotes the same canvas value after any later "
+    "operations; heap_machine_refines_pure_machine: the machine over references (the one that is extracted) computes exactly "
+    "what the pure machine computes, so the composition theorem holds for it (canvas_composition_is_grid_on_the_heap).  The "
+    "oracle still re-reads every bound canvas and leaf at the end of each case.  "
     "The model is hand-written (no translated code): its agreement with canvas.py is re-established on every run by the exact "
-    "correspondence on content, sizes, coords, raised error kinds AND the internal shards tuples; WF is evaluated by the "
-    "extracted model on every canvas of every defined case."
+    "correspondence on content, sizes, coords, raised error kinds, the internal shards tuples AND the aliasing pattern (which "
+    "shards lists and which cviews lists of the bound canvases are the same object); WF is evaluated by the extracted model "
+    "on every canvas of every defined case."
 )
 
 CHECK = C02
